@@ -20,7 +20,7 @@ RULE = ("(a) every command class is constructed over comm 0..255, counts 1..125,
         "command class, argument class) tuples + distinct transaction ids seen")
 ASSUMPTIONS = ["the decoders in refcodec follow the Modbus specification (big-endian fields, CRC lo-hi, MBAP length = bytes "
                "that follow) and the AA55 framing stated in the property"]
-MUST = ["overlapping_polls_txids", "rmw_with_padded_read_answers", "named_single_reads", "dt_fallback_model_query", "tcp_connect_failures_between_requests", "tcp_session_dropped_between_requests", "contract_eval_create_modbus_rtu_request", "contract_eval_create_modbus_tcp_request",
+MUST = ["auto_detected_object_frames", "aa55_over_both_transports", "overlapping_polls_txids", "rmw_with_padded_read_answers", "named_single_reads", "dt_fallback_model_query", "tcp_connect_failures_between_requests", "tcp_session_dropped_between_requests", "contract_eval_create_modbus_rtu_request", "contract_eval_create_modbus_tcp_request",
         "contract_eval_create_modbus_rtu_multi_request", "contract_eval_create_modbus_tcp_multi_request",
         "txid_wraps", "negative_values", "aa55_negative_values", "wire_ops_matched", "wire_retransmissions",
         "classes_constructed", "protocol_object_commands"]
@@ -386,6 +386,50 @@ def concurrent_and_padded(spec, part):
         for b in sim.bad:
             bad(part, "tcp", "undecodable-request", f"overlapping polls: {b[1]}", case)
         part.count("overlapping_polls_txids")
+    for fam, port, t_, r_ in (("ET", 502, 2, 2), ("DT", 502, 3, 1), ("ET", 8899, 2, 3), ("DT", 8899, 1, 2)):
+        sim = models.family_sim(fam)
+        got = {}
+
+        async def flow(loop):
+            inv = await g.connect("inv0", port, None, 0, t_, r_)
+            got["cls"] = type(inv).__name__
+            got["n0"] = len(sim.log)
+            await inv.read_runtime_data()
+            try:
+                await inv.read_setting("modbus-47000" if fam == "ET" else "modbus-40313")
+            except g.InverterError:
+                pass
+        run = engine.run_custom({("inv0", port): sim}, flow, vtime_cap=600, tx_cap=600)
+        part.evaluations += 1
+        framing = "tcp" if port == 502 else "rtu"
+        case = {"concpad": True}
+        if run.stop or run.error is not None:
+            bad(part, framing, "named-reads-failed", f"connect() without a family to a {fam} inverter on port {port}: {run.stop or repr(run.error)}", case)
+            continue
+        want_comm = 0xF7 if got.get("cls") == "ET" else 0x7F
+        wrong = [r for r in sim.log[got["n0"]:] if r[2]["comm"] != want_comm]
+        if wrong:
+            bad(part, framing, "request-carries-wrong-arguments",
+                f"object handed out by connect(timeout={t_}, retries={r_}) without a family ({got.get('cls')}, port {port}): {len(wrong)} frames addressed to unit "
+                f"{wrong[0][2]['comm']} instead of the family default {want_comm}", case)
+        else:
+            part.count("auto_detected_object_frames")
+    for transport_port in (502, 8899):
+        sim = models.family_sim("ES")
+        async def flow(loop):
+            for _ in range(2):
+                inv = g.ES("inv0", transport_port, 0, 1, 0)
+                await inv.read_device_info()
+                await inv.read_runtime_data()
+        run = engine.run_custom({("inv0", transport_port): sim}, flow, vtime_cap=600, tx_cap=600)
+        part.evaluations += 1
+        case = {"concpad": True}
+        if run.stop or run.error is not None or sim.bad:
+            bad(part, "aa55", "undecodable-request",
+                f"ES object on port {transport_port} ({'Modbus/TCP transport' if transport_port == 502 else 'UDP'}): AA55 commands are not decodable on the wire: "
+                f"{(sim.bad[0][1] + ' ' + sim.bad[0][2].hex()[:40]) if sim.bad else (run.stop or repr(run.error))}", case)
+        else:
+            part.count("aa55_over_both_transports")
     for port in (8899, 502):
         for stray in (b"\x00", b"\xab\xcd", b"\xff\xff\xff"):
             sim = models.family_sim("ET")
